@@ -25,7 +25,9 @@ ASSUMPTIONS = ['theta = 90 deg exactly is avoided (the program places that refle
                'gains compared where they exceed -100 dB']
 LABEL_FLOORS = {'media>=2': 0.4, 'radials': 0.08, 'boundary-crossed': 0.2, 'circular': 0.2, 'loaded': 0.3, 'load-on-gnd': 0.03}
 
-TH = (2.5, 5.0, 18)       # 2.5 .. 87.5
+TH_POS = (2.5, 5.0, 18)       # 2.5 .. 87.5
+TH_BOTH = (-87.5, 5.0, 36)    # an over-the-top elevation cut: -87.5 .. 87.5 (negative zenith angles are accepted)
+TH = TH_POS                   # set per case at the start of check()
 PH = (0.0, 30.0, 12)
 
 
@@ -69,6 +71,7 @@ def case_strategy(draw, big=False):
                    'scale': gen.r6(draw(gen.logf(0.05, 20)))}
     case['far_add'] = {'eps': gen.r6(draw(st.floats(1, 80))), 'sigma': gen.r6(draw(gen.logf(1e-4, 1e3))),
                        'height': -gen.r6(draw(st.floats(0, 5)))}
+    case['over_the_top'] = draw(st.integers(0, 2)) == 0
     return case
 
 
@@ -134,10 +137,14 @@ def on_interface(topo, media, circular, lam):
 
 
 def check(case):
+    global TH
+    TH = TH_BOTH if case.get('over_the_top') else TH_POS
     why = rules.check(case)
     if why:
         return Result(skipped=why)
     labels = common.base_labels(case)
+    if case.get('over_the_top'):
+        labels.append('negative-zenith-angles')
     env = case['env']
     media = env['media']
     try:
@@ -193,7 +200,11 @@ def check(case):
         d = maxdiff(gi, pattern(common.solved(c2)), top=40)
         seq.append(d)
         # monotone once the ground is a good conductor (loss tangent >> 1 for every drawn frequency and permittivity)
-        if prev is not None and sg >= 1e6 and d > prev * 1.1 + 1e-9:
+        # (not asserted for a ground screen of wires thicker than 1e-3 wavelength: the screen formula's
+        # ln(spacing / 2 pi radius) is then negative out to many wavelengths, its capacitive impedance resonates
+        # with the inductive surface impedance of the soil and the approach to the limit is not monotone)
+        thick_screen = bool(env.get('radials')) and env['radials']['r'] > 1e-3 * 299.8 / case['f']
+        if prev is not None and sg >= 1e6 and d > prev * 1.1 + 1e-9 and not thick_screen:
             fails.append(('sigma-sweep:not-monotone', 'max gain difference to ideal ground for sigma 1e2..: %s' % seq))
             break
         prev = d
